@@ -261,7 +261,7 @@ impl Monitor for C03 {
         vec![("histories", tier.pick(80_000, 1_600_000)), ("long", tier.pick(200, 2000))]
     }
     fn rule(&self) -> &'static str {
-        "case = one optimizer instance (kind x {decay, momentum/dampening, centred} flags enumerated by the case index; lr log-uniform in [1e-4,1], betas/alpha/momentum from valid grids, eps in [1e-10,1e-3]) owning 2..10 parameter slots laid out over 1..3 layers x 1..3 filters x {weight,bias} with ranks 1..3; three slots carry the same numbers as vector / matrix / 3-D tensor (rank probe); every slot has its own gradient family (normal, constant, sparse, sign-flipping, tiny 1e-12..1e-6, large 1e3..1e6, mixture) and step-number sequence (constant 1, constant k, +1 per step, jumping); slots are updated in a random interleaving for 1..400 steps (long: 2000). After EVERY update the slot's values are compared with the documented equations evaluated per element in f64 (tolerance 1e-4 x distance travelled + 1e-7 + 8 x drift of the same equations evaluated in f32), must be finite, and the three rank-probe slots must agree. Distinct = distinct (optimizer configuration, layout) descriptors; sentinel zeros for hyper-parameters are not generated."
+        "case = one optimizer instance (kind x {decay, momentum/dampening, centred} flags enumerated by the case index; lr log-uniform in [1e-4,1], betas/alpha/momentum from valid grids, eps in [1e-10,1e-3]) owning 2..10 parameter slots laid out over 1..3 layers x 1..3 filters x {weight,bias} with ranks 1..3; three slots carry the same numbers as vector / matrix / 3-D tensor (rank probe); every slot has its own gradient family (normal, constant, sparse, sign-flipping, tiny 1e-12..1e-6, large 1e3..1e6, mixture) and step-number sequence (constant 1, constant k, +1 per step, jumping; k in 2..9 or, in every sixth case, 100 / 1000 / 100000); slots are updated in a random interleaving for 1..400 steps (long: 2000). After EVERY update the slot's values are compared with the documented equations evaluated per element in f64 (tolerance 1e-4 x distance travelled + 1e-7 + 8 x drift of the same equations evaluated in f32), must be finite, and the three rank-probe slots must agree. Distinct = distinct (optimizer configuration, layout) descriptors; sentinel zeros for hyper-parameters are not generated."
     }
     fn assumptions(&self) -> Vec<&'static str> {
         vec![
@@ -276,7 +276,9 @@ impl Monitor for C03 {
         let flags = ((idx / 5) % 8) as usize;
         let opt = gen_opt(&mut rng, kind, flags);
         let steps = if gen == "long" { 2000 } else { *rng.pick(&[1usize, 2, 3, 5, 10, 30, 100, 400]) };
-        let kconst = rng.range(2, 9) as i32;
+        // mostly small step numbers; every sixth case large ones (bias corrections 1 - beta^t
+        // saturate, beta^t underflows)
+        let kconst = if idx % 6 == 5 { *rng.pick(&[100i32, 1000, 100_000]) } else { rng.range(2, 9) as i32 };
 
         // layout
         let layers = rng.range(1, 3);
